@@ -29,7 +29,9 @@ m = {
               "baseline_off_cmd": "cd /repo && /venv/bin/python -m pytest -ra -q -p no:cacheprovider --timeout=900 --continue-on-collection-errors",
               "source_commits": [], "add_only": True},
     "engines": [{"name": "hypothesis+enumeration", "path": "vlib/runner.py", "serves_properties": sorted(CHECKS),
-                 "kind_free_text": "Hypothesis (seeded by VERIF_SEED) for unbounded dimensions, itertools enumeration sharded over 16 processes for finite ones; explicit oracles (Python integers, reference IR interpreter, binutils/LLVM, the CPU)"}],
+                 "kind_free_text": "Hypothesis (seeded by VERIF_SEED) for unbounded dimensions, itertools enumeration sharded over 16 processes for finite ones; explicit oracles (Python integers, reference IR interpreter, binutils/LLVM, the CPU)"},
+                {"name": "atheris", "path": "vlib/fuzz_c10.py", "serves_properties": ["C10"],
+                 "kind_free_text": "coverage-guided fuzzing (atheris 3.1 on libFuzzer, miasmx imported under instrument_imports) of decoder and assembler targets with the C10 oracle inside the target; campaigns are child processes of checks/c10_total.py, pinned by -seed / -runs, known signatures excluded in-target"}],
     "checks": checks,
     "not_applicable": na,
     "notes": "Known genuine defects are listed in known_findings.json (open entries print KNOWN-FINDING lines and suppress exactly their root-cause signature; fixed entries suppress nothing).",
